@@ -664,6 +664,7 @@ func (w *Walker) bindLocal(id *ast.Ident, t *Term, st *State) {
 
 func (w *Walker) assign(s *ast.AssignStmt, in []*State) []*State {
 	var out []*State
+	in = w.splitOwnSender(s, in)
 	for _, st := range in {
 		if len(s.Rhs) == 1 && len(s.Lhs) > 1 {
 			// tuple assignment from call / map index / type assert
@@ -1205,9 +1206,8 @@ func applyKill(st *State, loc string, kind int, idx *Term) {
 		j := a.A.Args[1]
 		jc := idxClass(j, st)
 		mask := kind
-		if jc == "own" && mask&^(KillNNSender) == 0 {
-			return false // A7: sender's slot is not the own slot
-		}
+		// (no blanket "a sender's slot is not the own slot": a node that lost its state receives its own payloads back
+		// from recovery messages; the generic test below keeps the fact when the path knows the indices differ)
 		if jc == "sender" && mask&^(KillNNOwn) == 0 {
 			return false
 		}
@@ -2203,4 +2203,51 @@ func (w *Walker) knownResponse(base, idx *Term, st *State) bool {
 		}
 	}
 	return false
+}
+
+
+// splitOwnSender: a received payload is stored into its sender's slot. The sender is normally another node, but a node
+// that lost its state is handed its own payloads back by recovery messages, so the slot may be the node's own. A path
+// that holds an "own slot is empty" fact for that table and does not know whether the sender is the node itself is split
+// in two right before the store: in one the sender is this node (the fact dies with the store), in the other it is not
+// (the fact survives). What used to be assumption A7 is now a case distinction the code under analysis has to survive.
+func (w *Walker) splitOwnSender(s *ast.AssignStmt, in []*State) []*State {
+	if w.Fn.Pkg.PkgPath != modPath || len(s.Lhs) != 1 || len(s.Rhs) != 1 || s.Tok != token.ASSIGN {
+		return in
+	}
+	ix, ok := ast.Unparen(s.Lhs[0]).(*ast.IndexExpr)
+	if !ok {
+		return in
+	}
+	var out []*State
+	for _, st := range in {
+		w.lvalue = true
+		bs := w.eval(ix.X, st)
+		w.lvalue = false
+		if len(bs) != 1 || bs[0].t.K != KField || bs[0].st != st {
+			out = append(out, st)
+			continue
+		}
+		base := bs[0].t
+		switch base.Name {
+		case "ctx.PreparationPayloads", "ctx.PreCommitPayloads", "ctx.CommitPayloads", "ctx.ChangeViewPayloads":
+		default:
+			out = append(out, st)
+			continue
+		}
+		is := w.eval(ix.Index, st)
+		if len(is) != 1 || is[0].st != st || idxClass(is[0].t, st) != "sender" {
+			out = append(out, st)
+			continue
+		}
+		own := mkAtom("nn", mkTerm(KIndex, "", base, tMyIndex), nil)
+		if v, known := st.F.value(own); !known || v {
+			out = append(out, st) // no "own slot empty" fact to protect
+			continue
+		}
+		ts, fs := split(st, Lit{mkAtom("eq", tMyIndex, is[0].t), true})
+		out = append(out, ts...)
+		out = append(out, fs...)
+	}
+	return out
 }
